@@ -448,15 +448,15 @@ PROPS = {
                         "concatenate! structs have no Extend: behaviours containing extend are skipped for them (counted)"],
     },
     "C19": {
-        "level_text": "Rayon.tla (split/leaf/join over ghost index ranges) model-checked incl. liveness; the crate's exported impl_from_par_iterator! instantiated on a logging Probe and run on real pools: every recorded schedule validated by TLC against RayonObj; fold/reduce-shaped histories replayed on ten types; direct collects against exact statistics",
-        "technique": 'TLC model checking of Rayon.tla + TLC trace validation of recorded rayon schedules + replay; collections through filter / chain adaptors (item-less leaves)',
+        "level_text": "Rayon.tla (split/leaf/join over ghost index ranges) model-checked incl. liveness; the crate's exported impl_from_par_iterator! instantiated on a logging Probe and run on real pools: every recorded schedule validated by TLC against RayonObj; fold/reduce-shaped histories replayed on ten types; direct collects against exact statistics; arbitrary full-mantissa f64 vectors collected sequentially and from parallel iterators (by value, by reference, max_len 1 / 3, filter adaptor) under pools of 1, 2, 5, 16 threads: every result validated by TLC against Trace_Moments.tla (exact statistics in unbounded arithmetic, envelope as an exact rational inequality)",
+        "technique": 'TLC model checking of Rayon.tla + TLC trace validation of recorded rayon schedules + replay; collections through filter / chain adaptors (item-less leaves) + TLC validation of parallel collections of arbitrary f64 data in exact arithmetic (Trace_Moments.tla)',
         "title": "parallel collection gives the sequential answer under every schedule",
-        "mc": [{"module": "MC_Rayon", "cfg": "MC_Rayon.cfg", "overrides": {"N": ("4", "5"), "Ids": ("{1, 2, 3, 4, 5, 6, 7, 8}", "{1, 2, 3, 4, 5, 6, 7, 8, 9, 10}")}, "timeout": 7200},
+        "mc": [MC_BIG, MC_BIGSTATS, {"module": "MC_Rayon", "cfg": "MC_Rayon.cfg", "overrides": {"N": ("4", "5"), "Ids": ("{1, 2, 3, 4, 5, 6, 7, 8}", "{1, 2, 3, 4, 5, 6, 7, 8, 9, 10}")}, "timeout": 7200},
                MC_MERGE],
         "replay": [{"module": "Gen_Moments", "cfg": "Gen_Moments_rayon.cfg",
                     "overrides": {"MaxLen": ("4", "5"), "Slots": ("{1, 2, 3, 4, 5, 6}", "{1, 2, 3, 4, 5, 6, 7, 8}")},
                     "family": "moments", "types": ALLM, "embeddings": "E0,E3,E5,E10"}],
-        "trace": [{"module": "Trace_Rayon", "cfg": "Trace_Rayon.cfg", "family": "rayon", "args": {"reps": ("2", "8")}, "timeout": 3600}],
+        "trace": [tr_mom(("150", "1000")), {"module": "Trace_Rayon", "cfg": "Trace_Rayon.cfg", "family": "rayon", "args": {"reps": ("2", "8")}, "timeout": 3600}],
         "direct": [{"cmd": "direct", "family": "rayon", "args": {"max_n": ("10000", "1000000"), "reps": ("2", "4")}},
                    long_job("Variance,Skewness,Kurtosis,Moments4", "E0,E3", max_n="1000")],
         "rule": "(a) Rayon.tla model-checked: every split tree and join order of N items returns an object holding 0..N-1 in order; "
